@@ -107,6 +107,10 @@ pub async fn run_case(case: &Case, window: Duration, max: usize) -> Obs {
                 let _ = handle.close(ch).await;
                 tokio::time::sleep(Duration::from_secs(3600)).await;
             }
+            End::EofHold => {
+                let _ = handle.eof(ch).await;
+                tokio::time::sleep(Duration::from_secs(3600)).await;
+            }
             End::Abort => {
                 // channel closed without EOF; then the TCP connection goes away
                 let _ = handle.close(ch).await;
